@@ -164,6 +164,16 @@ scen("C01", "alternating-combinators-selector", nest("<div><p>", 400, inner="<b 
      cfg("Rich", css=[{"agent": False, "text": "x " + " ".join(["div > p"] * 300) + " b { color: red; } " + " ".join(["div > p"] * 350) + " b { color: #00f; }"}]),
      [one("OneShotLines", 20)], stack_kib=256,
      note="boundary case for the matcher fix: choices kept in a vector instead of on the stack")
+scen("C01", "selector-descendant-then-child-exponential", nest("<div>", 56, inner="hi"),
+     cfg("Plain", css=[{"agent": False, "text": "x > div" + " div > div" * 14 + " {color:red;}"}]), [one("OneShotString", 80)],
+     note="fixed (matcher memo fix): every combination of ancestors was retried for a descendant combinator reached through a child combinator; 167 bytes of CSS on 56 nested divs did not return")
+scen("C01", "selector-descendant-then-child-in-style-element",
+     nest("<div>", 500, inner="hi", prefix="<style>x > div div > div div > div div{color:red;}</style>"),
+     cfg("Rich", use_doc_css=True), [one("OneShotLines", 80)],
+     note="fixed (matcher memo fix): one 36-byte rule, depth^4 steps")
+scen("C01", "selector-list-25000-by-12000-declarations", "<a>x</a>",
+     cfg("Plain", css=[{"agent": False, "text": "p," * 24999 + "p{" + "color:red;" * 12000 + "}"}]), [one("OneShotString", 20)],
+     note="fixed (shared declarations fix): every selector of a list got its own copy of the declarations (25000 x 12000 entries, > 8 GB for 170 KB of CSS that matches nothing); reported by a code-reading sub-agent, not reached by the generated workload")
 scen("C01", "hard-error-at-every-stage", "<p>hello <b>world</b></p>" * 300, cfg("Plain"),
      [one("OneShotString", 40, plan([{"Data": 100}, "Eintr"], err_at=[4096, "ConnectionReset"])),
       one("OneShotLines", 40, plan(err_at=[0, "WouldBlock"])),
